@@ -489,6 +489,10 @@ func judge(sn *scenario) {
 				if g, ok := openAtGracefulStop(sn, f); ok && !f.stopOK && sn.incs[g].Def.Shutdown != nil {
 					// a shutdown configuration of its own: name it, and name Stop() as the place
 					how = "open-at-graceful-stop(" + sn.incs[g].Def.Shutdown.classLabel() + ")"
+					if sd := sn.incs[g].Def.Shutdown; !sd.NoDrain && sd.Versus == "timeout-shorter-than-drain" {
+						// one class whatever made the drain slow (server hanging, rate limiter)
+						how = "open-at-graceful-stop(drain-cut-by-shutdown-timeout)"
+					}
 					comp = compShutdown
 					if second.Inc > g {
 						where = "after-graceful-restart"
@@ -553,6 +557,12 @@ func judge(sn *scenario) {
 					} else {
 						refused++
 					}
+				}
+			}
+			if queueSentDuringStop(in.J) {
+				run.Count("graceful_stop_with_queue_transmission_while_Stop()_ran", 1)
+				if in.Def.LateMs > 0 {
+					run.Count("graceful_stop_with_queue_transmission_while_Stop()_ran_server_answering_late", 1)
 				}
 			}
 			run.Count("graceful_stop ["+label+"]", 1)
